@@ -259,6 +259,53 @@ def must_pass(fn, start_block, via, targets, avoid=()):
     return not any(t[0] in r for t in targets)
 
 
+def must_pass_by_kind(fn, start_block, via, targets, avoid, kinds, evkey="ev.event"):
+    """must_pass, decided separately for every event kind: successors of tests of `ev.event` (==, != against a constant,
+    or the switch over it) that contradict the kind are not followed.  The loop treats timers differently from
+    descriptors in two places that are correlated through ev.event; one kind at a time is exact for that."""
+    tb = {t[0]: t[1] for t in targets}
+    via_blocks = {p[0] for p in via if not (p[0] in tb and p[1] > tb[p[0]])}
+    for k in kinds:
+        seen = set()
+        st = [start_block]
+        hit = False
+        while st:
+            b = st.pop()
+            if b in seen or b in via_blocks or b in avoid:
+                continue
+            seen.add(b)
+            if b in tb:
+                hit = True
+                break
+            blk = fn.blocks[b]
+            succ = blk.rsucc()
+            c = blk.cond
+            if c is not None:
+                if blk.term and blk.term["k"] == "SwitchStmt" and key(core.strip_casts(c)) == evkey:
+                    keep = []
+                    dflt = None
+                    for s_ in succ:
+                        lab = fn.blocks[s_].label or {}
+                        if "case" in lab and int(lab["case"]) == k:
+                            keep.append(s_)
+                        elif "case" not in lab:
+                            dflt = s_
+                    succ = keep or ([dflt] if dflt is not None else [])
+                else:
+                    c0 = core.strip_casts(c)
+                    if c0.get("k") == "bin" and c0["op"] in ("==", "!=") and len(blk.succ) == 2:
+                        a, b2 = core.strip_casts(c0["x"]), core.strip_casts(c0["y"])
+                        cv = const_val(a) if key(b2) == evkey else (const_val(b2) if key(a) == evkey else None)
+                        if cv is not None:
+                            truth = (k == cv) if c0["op"] == "==" else (k != cv)
+                            succ = [blk.succ[0] if truth else blk.succ[1]]
+                            succ = [x for x in succ if x is not None]
+            st.extend(succ)
+        if hit:
+            return False
+    return True
+
+
 def loop_rules(rep, u, vals):
     fn = tp.need(u, "tpt_loop")
     rep.functions.add(fn.name)
@@ -278,10 +325,15 @@ def loop_rules(rep, u, vals):
         stores = [pos for pos, root, x, ps in fn.nodes() if store_pred(x)]
         found = False
         allok = True
-        for bid, c, atom in r_mpt.branches_with(fn, lambda x, ps: and_const(flagval)(x, ps) and flagkeypart in key(x)):
+        tests = list(r_mpt.branches_with(fn, lambda x, ps: and_const(flagval)(x, ps) and flagkeypart in key(x)))
+        for bid, c, atom in tests:
             found = True
             s, known = r_mpt.edge_for_value(fn, bid, c, atom, flagval)
-            if not known or not must_pass(fn, s, stores, [cb], avoid=[bid]):
+            # a later test of the same (unchanged) flag word takes its flag-set edge too, and is verified in its own turn:
+            # it cuts the path like a store does
+            cuts = stores + [(b2, len(fn.blocks[b2].elems) - 1) for b2, c2, a2 in tests if b2 != bid]
+            kinds = [vals[n_] for n_ in ("TP_EV_READ", "TP_EV_WRITE", "TP_EV_TIMER", "TP_EV_PROC")]
+            if not known or not must_pass_by_kind(fn, s, cuts, [cb], [bid], kinds):
                 allok = False
         if found and allok and stores:
             rep.proved("R-MPT", fn, inst, desc, "%d store site(s) cut every path from the flag-set edge to the dispatch" % len(stores))
@@ -329,10 +381,15 @@ def timer_programming(rep, fn, vals):
         s0, k0 = r_mpt.edge_for_value(fn, bid, c, atom, 0)
         if not (k1 and k2 and k0) or not zero or not per:
             continue
+        # with neither flag the interval is the value - unless the time is absolute (a point in time has no period): the
+        # zeroing is then reachable only through a test of the ABSTIME bit
+        abt = [b2 for b2 in fn.reachable_blocks() if fn.blocks[b2].cond is not None and "fflags" in key(fn.blocks[b2].cond) and
+               any(const_val(y) == vals["TP_FF_T_ABSTIME"] for y, _ in walk(fn.blocks[b2].cond))]
+        pd = fn.pdom().get(bid, set()) - {bid}
         ok = s1 == s2 and zero[0][0] in arm_blocks(fn, bid, s1) and per[0][0] not in arm_blocks(fn, bid, s1) and \
-            per[0][0] in arm_blocks(fn, bid, s0) and zero[0][0] not in arm_blocks(fn, bid, s0)
+            per[0][0] in arm_blocks(fn, bid, s0) and zero[0][0] not in fn.reach_from([s0], avoid=set(pd) | set(abt))
     (rep.proved if ok else rep.violated)("R-MPT", fn, "interval-iff-periodic",
-                                         "the repeat interval is zero iff ONESHOT or DISPATCH is set, else equals the value")
+                                         "the repeat interval is zero iff ONESHOT or DISPATCH is set (or the time is absolute), else equals the value")
     # ABSTIME agreement
     AB = vals["TP_FF_T_ABSTIME"]
 
@@ -426,6 +483,11 @@ def bitfields(rep, fn):
     ex["MAPN"] = "sizeof(tp_event_to_ep_map) / sizeof(tp_event_to_ep_map[0])"
     pr = tp.probe(tp.TP_C, ex, "probe:tpdata")
     names = ["TFD", "EV", "FL0", "FL1", "FL2", "FL3", "DIS"]
+    for extra in ("TPDATA_F_ADDED", "TPDATA_F_ABSTIME"):          # later additions to the packing: part of the same disjointness claim
+        v_ = tp.probe(tp.TP_C, {"X": "IFDEF:" + extra}, "probe:tpdata:" + extra)["X"]
+        if v_ is not None:
+            pr[extra] = v_
+            names.append(extra)
     if any(pr[n] is None for n in names):
         raise driver.AnalysisBroken("tpdata field probes not constant: %s" % pr)
     bad = []
@@ -578,6 +640,14 @@ def run(rep, tier):
     epoll_masks(rep, u, vals)
     rep.floor("add-or-modify combinations", add_or_modify(rep, u), 20)
     rep.floor("event-record parameters", record_widths(rep, u), 8)
+    from props import c06_audit
+    fl_ = tp.need(u, "tpt_loop")
+    c06_audit.timer_flags_fresh_rule(rep, fp)
+    rep.floor("timerfd reads in the loop", c06_audit.timer_read_rule(rep, fl_), 1)
+    rep.floor("epoll changes of a record's identifier", c06_audit.epoll_owner_rule(rep, u), 3)
+    c06_audit.clock_rule(rep, fp, vals)
+    rep.floor("read/write removal sites", c06_audit.rw_kind_rule(rep, fp, vals), 1)
+    rep.floor("refusal obligations", c06_audit.refuse_rule(rep, u, vals, opt), 4)
     return driver.finish(
         rep, "other",
         "Static analysis of the Linux (epoll) branch of threadpool.c; the BSD/kqueue branch is not compiled here and is NOT "
